@@ -271,8 +271,10 @@ pub(crate) fn parse_included_files<P: AsRef<Path>>(
         .statements()
         .filter_map(|parse_stmt| match parse_stmt {
             synast::Stmt::Include(include) => {
-                let file: synast::FilePath = include.file().unwrap();
-                let file_path = file.to_string().unwrap();
+                // A malformed include statement (`include;`) has no path. The syntax error
+                // has been recorded; there is nothing to read.
+                let file: synast::FilePath = include.file()?;
+                let file_path = file.to_string()?;
                 // stdgates.inc will be handled "as if" it really existed.
                 if file_path == "stdgates.inc" {
                     None
